@@ -11,8 +11,8 @@ Per generated input three things are checked:
   * the driver's evaluation of the theorem's conclusion under its hypotheses is `true` (a `false` would contradict a proved theorem:
     reported as a note, never silently);
   * oracle: inside the hypotheses, the REAL code's result == the specification's result.
-Outside `StrArgOk` (argument spelled with a backslash as last character) a difference between the real code and the specification
-is the recorded known finding D45 (a string literal ending in an escaped backslash is not lexed as one token)."""
+Finding D45 (a string literal ending in an escaped backslash was not lexed as one token) is repaired: `StrArgOk` holds for every
+lexed argument (`C03.tokenize_in_class`), and arguments spelled with a backslash as last character are judged like all others."""
 from . import c03 as C
 
 IDENTS = ["a", "b", "x1", "_t", "foo", "N", "defined", "x", "y"]
@@ -122,22 +122,19 @@ def check_stringify(ctx, drv, pp, arg, origin="random"):
         ctx.dist["strconf:stringify spec undefined (not a string literal)"] += 1
         return
     same = "ok" in I and _impl_triples([I["ok"]]) == [_spec_triple(S)]
-    if R["arg_ok"]:
-        ctx.dist["strconf:stringify inside StrArgOk, spec defined"] += 1
-        if len(R["tokens"]) > 1:
-            ctx.dist["strconf:stringify inside, 2+ tokens"] += 1
-        if any(t["k"] in ("str", "chr") for t in R["tokens"]):
-            ctx.dist["strconf:stringify inside, literal in the argument"] += 1
-        if not same:
-            ctx.violation(f"# operand: Lexer.stringify gives {I} where C11 6.10.3.2p2 (Spec.Prosser.stringize) gives {S}", case)
-    elif not same:
-        ctx.dist["strconf:outside StrArgOk, impl != spec (finding D45)"] += 1
-        # outside StrArgOk = the argument's spelling ends in a backslash inside / at the end of a string literal: finding D45
-        # (Lexer.string_constant pairs a backslash only with a following double quote)
-        ctx.classify(case, f"# operand {arg!r}: Lexer.stringify gives {I} where C11 6.10.3.2p2 gives {S}",
-                     [("D45", lambda c: True)])
-    else:
-        ctx.dist["strconf:outside StrArgOk, impl == spec"] += 1
+    if not R["arg_ok"]:
+        # `C03.tokenize_in_class`: every lexed argument is in the class (since the repair of finding D45 `StrArgOk` has no other clause)
+        ctx.dist["proved_fragment:DRIVER CONTRADICTS THEOREM"] += 1
+        ctx.notes.append(f"driver evaluation contradicts C03.tokenize_in_class on {case}")
+    ctx.dist["strconf:stringify inside StrArgOk, spec defined"] += 1
+    if len(R["tokens"]) > 1:
+        ctx.dist["strconf:stringify inside, 2+ tokens"] += 1
+    if any(t["k"] in ("str", "chr") for t in R["tokens"]):
+        ctx.dist["strconf:stringify inside, literal in the argument"] += 1
+    if arg.rstrip().endswith("\\"):
+        ctx.dist["strconf:stringify spelling ends in a backslash (former finding D45)"] += 1
+    if not same:
+        ctx.violation(f"# operand: Lexer.stringify gives {I} where C11 6.10.3.2p2 (Spec.Prosser.stringize) gives {S}", case)
 
 
 def check_replace(ctx, drv, pp, defn, args, origin="random"):
